@@ -130,7 +130,23 @@ def _wrap(fn):
         return ('exc', type(ex).__name__ + ': ' + str(ex)[:200])
 
 
+DFLT = 'dflt'      # "call without the optional size argument" (the documented default)
+
+
+def _undefault(op):
+    return tuple((-1 if a == DFLT else a) if isinstance(a, str) else a for a in op)
+
+
+def _call(fn, *a):
+    """Call fn with the trailing DFLT argument(s) left out."""
+    a = list(a)
+    while a and isinstance(a[-1], str) and a[-1] == DFLT:
+        a.pop()
+    return fn(*a)
+
+
 def apply_model(cur, op, cs):
+    op = _undefault(op)
     k = op[0]
     if k == 'read':
         return _wrap(lambda: cur.read(op[1]))
@@ -176,11 +192,11 @@ def apply_model(cur, op, cs):
 def apply_sync(rd, op, cs):
     k = op[0]
     if k == 'read':
-        return _wrap(lambda: rd.read(op[1]))
+        return _wrap(lambda: _call(rd.read, op[1]))
     if k == 'peek':
-        return _wrap(lambda: rd.peek(op[1]))
+        return _wrap(lambda: _call(rd.peek, op[1]))
     if k == 'read_until':
-        return _wrap(lambda: rd.read_until(op[1], op[2], op[3]))
+        return _wrap(lambda: rd.read_until(op[1], consume_delimiter=op[3]) if op[2] == DFLT else rd.read_until(op[1], op[2], op[3]))
     if k == 'pipe':
         def f():
             b = SyncSink()
@@ -196,9 +212,9 @@ def apply_sync(rd, op, cs):
             return b.getvalue()
         return _wrap(f)
     if k == 'readline':
-        return _wrap(lambda: rd.readline(op[1]))
+        return _wrap(lambda: _call(rd.readline, op[1]))
     if k == 'readlines':
-        return _wrap(lambda: rd.readlines(op[1]))
+        return _wrap(lambda: _call(rd.readlines, op[1]))
     if k == 'stale_child':
         def f():
             child = rd.delimit(op[1])
@@ -224,13 +240,14 @@ def apply_sync(rd, op, cs):
 def apply_async(rd, op, cs, mon=None):
     k = op[0]
     if k == 'read':
-        return _wrap(lambda: run_coro(rd.read(op[1])))
+        return _wrap(lambda: run_coro(_call(rd.read, op[1])))
     if k == 'readall':
         return _wrap(lambda: run_coro(rd.readall()))
     if k == 'peek':
-        return _wrap(lambda: run_coro(rd.peek(op[1])))
+        return _wrap(lambda: run_coro(_call(rd.peek, op[1])))
     if k == 'read_until':
-        return _wrap(lambda: run_coro(rd.read_until(op[1], op[2], op[3])))
+        return _wrap(lambda: run_coro(rd.read_until(op[1], consume_delimiter=op[3]) if op[2] == DFLT
+                                      else rd.read_until(op[1], op[2], op[3])))
     if k == 'pipe':
         def f():
             s = AsyncSink()
@@ -417,12 +434,15 @@ def compositions(n, with_empty):
 
 def op_shapes(delims, cs, for_async):
     d0 = delims[0]
-    ops = [('read', 1), ('read', 2), ('read', -1), ('read', 0), ('peek', 2), ('peek', -1)]
+    ops = [('read', 1), ('read', 2), ('read', -1), ('read', 0), ('peek', 2), ('peek', -1),
+           ('read', None), ('read', DFLT), ('peek', DFLT)]      # documented spellings of "no limit"
     for d in delims:
         if len(d) > cs:
             continue
         ops += [('read_until', d, -1, False), ('read_until', d, -1, True), ('read_until', d, 2, False),
                 ('read_until', d, 1, True), ('pipe_until', d, False), ('pipe_until', d, True)]
+        if d == d0:
+            ops += [('read_until', d, DFLT, False)]
     if len(d0) <= cs:
         ops += [('delimit', d0, (('read', 1),)), ('delimit', d0, (('peek', 1), ('read', -1))),
                 ('stale_child', d0, len(d0)), ('stale_child', d0, len(d0) + 1)]
@@ -430,7 +450,7 @@ def op_shapes(delims, cs, for_async):
     if for_async:
         ops += [('readall',)]
     else:
-        ops += [('readline', -1), ('readline', 2), ('readlines', -1)]
+        ops += [('readline', -1), ('readline', 2), ('readlines', -1), ('readline', DFLT), ('readlines', DFLT)]
     return ops
 
 
